@@ -69,10 +69,43 @@ def run(ctx):
     ]
 
 
+def _replay_recorded(path, lib, hname, hsrcs, trace_spec):
+    """--replay for V-direction violations (like vlib.replay_recorded, but with the deep Java stack the bignum operators
+    need): a stored rejected trace is validated again; a recorder crash descriptor is re-recorded first."""
+    import json
+    import shutil
+    tmp = os.path.join(vlib.BUILD, "tmp", "replay-%s-%d" % (hname, os.getpid()))
+    os.makedirs(tmp, exist_ok=True)
+    try:
+        trace = os.path.abspath(path)
+        if not path.endswith(".ndjson"):
+            info = json.load(open(path))
+            exe = vlib.build_harness(lib, hname, hsrcs)
+            trace = os.path.join(tmp, "t.ndjson")
+            cmd = [exe, "--seed", str(info["seed"]), "--events", str(info["events"]), "--out", trace] + list(info.get("args", []))
+            if info.get("avoid"):
+                cmd += ["--avoid", ",".join(info["avoid"])]
+            p = subprocess.run(["timeout", "900"] + cmd, env=vlib.run_env())
+            if p.returncode != 0:
+                print("recorder failed again with exit %d (seed %s): violation reproduced" % (p.returncode, info["seed"]))
+                return 1
+        r = vlib.tlc(trace_spec, trace_spec, workers=1, timeout=3000, env={"TRACE": trace}, xss="1g", xmx="8g")
+        if r.rc == 0:
+            print("trace accepted by %s" % trace_spec)
+            return 0
+        if r.violated() is None:
+            print(r.tail(40))
+            return 2
+        print("trace rejected by %s near event %d: %s" % (trace_spec, r.depth, vlib._nth_line(trace, r.depth)))
+        return 1
+    finally:
+        shutil.rmtree(tmp, ignore_errors=True)
+
+
 def replay(path):
     lib = vlib.build_lib("asan")
     if os.path.basename(path).startswith("rec-") or path.endswith(".ndjson"):
-        return vlib.replay_recorded(path, lib, "c05_record", ["c05_record.cpp"], "Trace_JsonTextEnc", "Trace_JsonTextEnc")
+        return _replay_recorded(path, lib, "c05_record", ["c05_record.cpp"], "Trace_JsonTextEnc")
     rep = vlib.build_harness(lib, "c05_replay", ["c05_replay.cpp"])
     tmp = os.path.join(vlib.BUILD, "tmp", "c05-replay-%d" % os.getpid())
     os.makedirs(tmp, exist_ok=True)
